@@ -117,7 +117,13 @@ func (r *Run) assume(s string) {
 
 // exception consults the single-construct exception table (exceptions.go).
 func (r *Run) exception(construct string) (string, bool) {
-	reason, ok := exceptionTable[r.cur.ID+"|"+construct]
+	return r.exceptionFor(r.cur.ID, construct)
+}
+
+// exceptionFor looks an exception up under an explicit rule id (rules shared by several
+// properties keep their exceptions under the id they were written for).
+func (r *Run) exceptionFor(rule, construct string) (string, bool) {
+	reason, ok := exceptionTable[rule+"|"+construct]
 	if ok {
 		r.Exceptions = append(r.Exceptions, fmt.Sprintf("%s %s: %s", r.cur.ID, construct, reason))
 	}
